@@ -489,12 +489,12 @@ def run(chk: Check) -> None:
     run_no_raise(chk, prog)
     # 'from the parsed text ... returns exactly what was written': the letters and digits of a term reach the term
     # extractor through the tokenizer, so its faithfulness clause (C11) runs under this property as well
-    from .c11 import run_tokenize, universe
+    from .c11 import run_tokenize, universe, SMALL_ALPHABET
     chk.rule("C16.R10", "the tokenizer hands the written letters and digits on unchanged (clause of C11 on symbolic strings)",
              minimum=300)
     for n_chars in (1, 2):
         run_tokenize(chk, prog, n_chars, universe(), f"U{n_chars}", remap=lambda rid: "C16.R10")
-    run_tokenize(chk, prog, 3, frozenset("sgnSGNx7.+ #"), "S3", remap=lambda rid: "C16.R10")
+    run_tokenize(chk, prog, 3, frozenset(SMALL_ALPHABET), "S3", remap=lambda rid: "C16.R10")
     # contracts of other parts of the library this check takes for granted (summaries, token model, reference grammar):
     # the clauses that check the source against them, replayed under this property (props/contracts.py)
     from .contracts import run_contracts
